@@ -61,6 +61,8 @@ struct CtlState {
     go: std::collections::BTreeSet<usize>,
     running: std::collections::BTreeSet<usize>,
     park_in_app: bool,
+    /// kernel thread ids of the workers (to tell "blocked on a lock" from "slow")
+    tids: BTreeMap<usize, u32>,
 }
 #[derive(Default)]
 struct Ctl {
@@ -77,6 +79,20 @@ fn hang(what: &str) -> ! {
     println!("why: schedule controller stuck ({what}); this is a harness problem, not a verdict");
     println!("INCONCLUSIVE property=C08");
     std::process::exit(2)
+}
+
+fn my_tid() -> Option<u32> {
+    std::fs::read_link("/proc/thread-self").ok()?.file_name()?.to_str()?.parse().ok()
+}
+
+/// is this thread sleeping in the kernel (on a futex, i.e. blocked on a lock) rather than running or
+/// waiting for a CPU? Unknown = assume it is, as before.
+fn is_sleeping(tid: u32) -> bool {
+    let Ok(stat) = std::fs::read_to_string(format!("/proc/self/task/{tid}/stat")) else { return true };
+    match stat.rfind(')') {
+        Some(i) => !matches!(stat[i + 1..].trim_start().chars().next(), Some('R')),
+        None => true,
+    }
 }
 
 impl Ctl {
@@ -253,6 +269,9 @@ pub fn run_conc(case: &ConcCase) -> Result<ConcInfo, String> {
                 let sink = sink.clone();
                 std::thread::spawn(move || {
                     ME.with(|m| *m.borrow_mut() = Some((ctl.clone(), i)));
+                    if let Some(t) = my_tid() {
+                        ctl.st.lock().unwrap().tids.insert(i, t);
+                    }
                     ctl.point(i, "start");
                     let done = match w {
                         Work::Resolve(mut req, out) => {
@@ -279,11 +298,14 @@ pub fn run_conc(case: &ConcCase) -> Result<ConcInfo, String> {
             let mut st = ctl.st.lock().unwrap();
             while !(st.running.is_empty() && st.go.is_empty() && st.parked.len() + st.finished.len() == n) {
                 let holders: Vec<usize> = st.parked.iter().filter(|(_, at)| at.starts_with("app.")).map(|(w, _)| *w).collect();
-                let (g, t) = ctl.cv.wait_timeout(st, if holders.is_empty() { HANG } else { BLOCKED_AFTER }).unwrap();
+                let short = !holders.is_empty();
+                let (g, t) = ctl.cv.wait_timeout(st, if short { BLOCKED_AFTER } else { HANG }).unwrap();
                 st = g;
-                if t.timed_out() {
-                    // the running worker is silent: if another worker is parked while holding the model
-                    // lock, the running one is waiting for that lock - let the holder go on
+                // a silent worker that is running or waiting for a CPU is merely slow (a loaded machine)
+                let merely_slow = short && st.running.iter().any(|w| st.tids.get(w).map_or(false, |t| !is_sleeping(*t)));
+                if t.timed_out() && !merely_slow {
+                    // the running worker is silent and asleep: if another worker is parked while holding the
+                    // model lock, the running one is waiting for that lock - let the holder go on
                     let holders: Vec<usize> = st.parked.iter().filter(|(w, at)| at.starts_with("app.") && !st.go.contains(w)).map(|(w, _)| *w).collect();
                     match holders.first() {
                         Some(&h) => {
@@ -292,7 +314,8 @@ pub fn run_conc(case: &ConcCase) -> Result<ConcInfo, String> {
                             st.running.insert(h);
                             ctl.cv.notify_all();
                         }
-                        None if holders.is_empty() && !st.parked.values().any(|at| at.starts_with("app.")) => hang("workers neither parked nor finished"),
+                        // (only after the long wait: the holder seen before a short wait may have moved on meanwhile)
+                        None if !short && !st.parked.values().any(|at| at.starts_with("app.")) => hang("workers neither parked nor finished"),
                         None => {}
                     }
                 }
